@@ -345,7 +345,7 @@ class Runner:
                 if st != "SUCCESS":
                     res.unwind_failed.append(r)
                 continue
-            if d.startswith("pointer relation:") or d.startswith("pointer arithmetic:"):
+            if d.startswith("pointer relation:") or d.startswith("pointer arithmetic:") or d.startswith("same object violation"):
                 # forming/comparing an out-of-bounds pointer WITHOUT dereferencing it (e.g. dns.c
                 # `data = rdatastart + rlen` before CHECKLEN): standard-level UB that no sanitizer can
                 # confirm; triaged by reading, reported separately, not part of the claimed checks
@@ -366,6 +366,10 @@ class Runner:
                     "file": os.path.basename(loc.get("file", "")), "function": loc.get("function"),
                     "line": loc.get("line"), "input": trace_input(r.get("trace", [])),
                 })
+        if res.failed and all(f["input"] is None for f in res.failed):
+            # FAILURE verdicts without any counterexample trace: seen only when the solver hit the memory limit
+            res.error = "failures reported without a counterexample trace (resource exhaustion?): inconclusive"
+            res.failed = []
         res.n_reach = len(reach_all)
         res.reach_ok = len(reach_failed)
         if res.failed:
@@ -393,12 +397,15 @@ class Runner:
         defs = ["-D%s=%s" % (k, v) if v is not None else "-D%s" % k for k, v in job.defs.items()]
         units = job.native_units if job.native_units is not None else job.units
         exe = os.path.join(jd, "replay")
+        # the counterexample's sizes refer to the job's (possibly scaled) copy of the sources, so the native
+        # replay is built from that same copy: real code, same buffer sizes, ASan/UBSan instead of CBMC
+        nsrc, _ = self.scratch.scaled_src(job.scale, job.subst)
         cc = ["gcc", "-g", "-O0", "-fsanitize=address,undefined", "-fno-sanitize-recover=undefined",
-              "-fno-omit-frame-pointer", "-w"] + BASE_CFLAGS + ["-DVREPLAY", "-I", jd, "-I", self.scratch.src,
+              "-fno-omit-frame-pointer", "-w"] + BASE_CFLAGS + ["-DVREPLAY", "-I", jd, "-I", nsrc,
               "-I", HARNESS_DIR] + defs
         objs = []
         srcs = [os.path.join(HARNESS_DIR, h) for h in [job.harness] + job.hunits] + \
-               [os.path.join(self.scratch.src, u) for u in units]
+               [os.path.join(nsrc, u) for u in units]
         for u in srcs:
             o = os.path.join(jd, os.path.basename(u) + ".o")
             ud = ["-D%s=%s" % kv for kv in job.unit_defs.get(os.path.basename(u), {}).items()]
